@@ -228,6 +228,12 @@ def stageStep (d : StageDrv) (ws : List String) : StageDrv × String :=
         let r := receivedCount (askPart now) d.st qs
         ({ d with st := r.2 }, toString r.1)
     | _, _ => (d, "bad-op")
+  | ["hammer", k, rounds] =>
+    -- K concurrent receptions of parts of a brand-new file, on a stage of its own: every acknowledged part is on
+    -- record (the locked region of Receive is atomic in the model: `record_kept`); no effect on this staging area
+    match parseNat? k, parseNat? rounds with
+    | some k, some r => if 2 ≤ k ∧ k ≤ 8 ∧ 1 ≤ r ∧ r ≤ 2000 then (d, "ok") else (d, "bad-op")
+    | _, _ => (d, "bad-op")
   | ["status", n, sent, now] =>
     match parseTime d sent, parseTime d now with
     | some sent, some now =>
